@@ -86,8 +86,6 @@ def gcp_opt(  # noqa:  PLR0912,PLR0913
         nmissing = 0
 
     # Create initial guess
-    M0 = _get_initial_guess(data, rank, init)
-
     if not isinstance(optimizer, (StochasticSolver, LBFGSB)):
         raise ValueError("Must select a supported optimizer.")
 
@@ -96,6 +94,9 @@ def gcp_opt(  # noqa:  PLR0912,PLR0913
 
     if isinstance(optimizer, StochasticSolver) and mask is not None:
         raise ValueError("Mask isn't supported for stochastic solves")
+
+    # Options are consistent, now it is safe to normalize a provided guess in place
+    M0 = _get_initial_guess(data, rank, init)
 
     # Welcome Message
     if printitn > 0:
@@ -145,8 +146,13 @@ def _get_initial_guess(
     """
     # TODO might be nice to merge with ALS/other CP methods
     if isinstance(init, Sequence) and not isinstance(init, str):
-        return ttb.ktensor(init).normalize("all")
+        init = ttb.ktensor(init)
     if isinstance(init, ttb.ktensor):
+        if init.shape != data.shape or init.ncomponents != rank:
+            raise ValueError(
+                f"Initial guess has shape {init.shape} and {init.ncomponents} components "
+                f"but expected shape {data.shape} and {rank} components"
+            )
         init.normalize("all")
         return init
     if init == "random":
